@@ -4,7 +4,7 @@ From KM Require Import Base.Bytes Model.Auth Model.AuthGate Model.Routes Proofs.
 Import ListNotations.
 Open Scope N_scope.
 
-(* Whenever checkAuth admits a request as (u, level): the request really carries a currently
+(* Whenever checkAuth lets a request in as (u, level): the request really carries a currently
    valid credential establishing exactly that user and level ([proves] is the specification:
    trusted untampered unexpired session token of this issuer; or a verified password; or a
    verified certificate chain to a keymaster key that is not the role CA's, with a key that is
@@ -29,7 +29,7 @@ Print Assumptions c06_identity_real.
 
 (* a deny-listed key never yields the keymaster-certificate bit, an IP-restricted certificate
    presented from outside its netblocks never yields the IP-certificate bit (if such a bit is in
-   the admitted level, it came from a valid session token) *)
+   the level let in, it came from a valid session token) *)
 Theorem c06_never_denied : forall now lim required q u l iat c,
   check_auth now lim required q = Admit u l iat -> q_tls q = Some c -> x_denied c = true ->
   hasb l bKMX509 = true -> exists t, q_cred q = Cookie t /\ valid_cookie now t /\ l = t_level t.
@@ -126,9 +126,9 @@ Proof. exists env0, (cross_get 1 bU2F), EChange. vm_compute. tauto. Qed.
 Print Assumptions c06_old_manage_refuted.
 
 (* the certificate branch before the two repairs: (a) chains issued by the role CA counted as
-   plain keymaster certificates (an automation certificate outside its netblocks was admitted
+   plain keymaster certificates (an automation certificate outside its netblocks was let in
    although nothing [proves] it); (b) the branch result was returned without testing it against
-   the mask (a plain user certificate was admitted where only IP certificates are taken) *)
+   the mask (a plain user certificate was let in where only IP certificates are taken) *)
 Theorem c06_old_tls_refuted :
   (exists now lim required q u l iat,
      check_auth_gen false true now lim required q = Admit u l iat /\ ~ proves now q u l) /\
